@@ -269,6 +269,14 @@ func (s *bbcSim) body() {
 			}
 			s.res.Violate("C12", "failure-signalled", "no-failure-signalled/"+kind+"-"+where+"-fragment", "%s at fragment %d of %d (mtu %d): the receiver neither handed up the bundle nor broadcast a failure fragment for transmission %d", kind, pos, n, mtu, tid)
 		}
+		// "signals failure", literally: a train of two or more fragments in which a fragment other than the
+		// last was dropped, duplicated or swapped makes the receiver broadcast a failure fragment, whether or
+		// not it hands something up. (A duplicated last fragment arrives after the delivery; a lost last
+		// fragment is the recorded finding; a one-fragment train has nothing a receiver could notice.)
+		lastOnly := pos == n-1 && kind != "swap"
+		if n >= 2 && !lastOnly && !o.failFor[tid] {
+			s.res.Violate("C12", "failure-signalled", "faulted-train-accepted-without-failure-signal/"+kind, "%s at fragment %d of %d (mtu %d): no failure fragment for transmission %d (bundles handed up: %d)", kind, pos, n, mtu, tid, len(o.delivered))
+		}
 		s.res.Fault("frag_" + kind)
 	}
 	for i := 0; i < n; i++ {
